@@ -39,6 +39,11 @@ CHECKS["C15"] = dict(engine="libsim", level="exploration", design_ref="DESIGN.md
    text="Random registration histories over overlapping literal types and patterns (incl. re-registration and external-command minifiers) interleaved with Match/Minify/MinifyMimetype/Bytes/String/Reader queries over media type strings with case, spaces and parameters; every query is compared with a reference model of the documented rules (which stub ran, with which params, ErrNotExist and zero bytes otherwise, Match == what a call uses). Weak by nature: the property has no schedule or fault for a simulator to own; this is the model-based half of the technique only and is claimed as such.",
    note="Trusts: the reference model (written from the doc comments) and its media type grammar; strings outside the grammar are judged only for Match/Minify agreement.")
 
+CHECKS["C20"] = dict(engine="clisim", level="fault_enumeration", design_ref="DESIGN.md §3 C20",
+   technique="deterministic simulation with crash injection: the real cmd/minify under an os facade (overlay) with a seeded worker scheduler; SIGKILL before every operation following a mutating FS operation and torn writes, one process per crash image; disk image judged by the property's disjunction",
+   text="For each generated scenario (in-place file/dir/bundle, separate output, sync, symlink and hard-link aliases, stdin; all file types, empty, library-rejected and >32KiB files; worker schedule on the tape) a fault-free run of the real command records the FS-operation trace; then the run is repeated on a rebuilt tree and killed (SIGKILL, no deferred code runs) at every boundary after a mutating operation, and every write is torn at three prefix lengths. Every surviving disk image must satisfy: original at the path, or original in <name>.bak, or complete new output; read-only inputs and bystanders untouched. Complete enumeration of crash points per explored scenario; scenarios are sampled.",
+   note="Trusts: the os facade covers every FS access of cmd/minify (an AST scan refuses the build, exit 2, if the package reaches the disk around it; --watch is outside every property), the kernel FS of the scratch tmpfs, testing/synctest. Crash model = process kill, not power loss.")
+
 PENDING = {}
 
 def main():
@@ -81,5 +86,5 @@ def main():
     print("wrote MANIFEST.json:", len(checks), "checks,", len(na), "not applicable")
 
 if __name__ == "__main__":
-    PENDING.update({p: "check not built yet in this round (planned, see DESIGN.md §3); not claimed until it exists" for p in ["C10","C11","C19","C20"]})
+    PENDING.update({p: "check not built yet in this round (planned, see DESIGN.md §3); not claimed until it exists" for p in ["C10","C11","C19"]})
     main()
